@@ -2,6 +2,7 @@ mod c01;
 mod c03;
 mod c04;
 mod c05;
+mod c06;
 mod c07;
 mod c17;
 mod enum_fol;
@@ -12,6 +13,7 @@ mod prob;
 mod refsem;
 mod report;
 mod sem;
+mod tff;
 mod tt;
 
 use report::Run;
@@ -56,6 +58,7 @@ fn main() {
             "C08" => c01::replay(c01::Mode::C08, &v),
             "C07" => c07::replay(c07::Mode::C07, &v),
             "C05" => c05::replay(&v),
+            "C06" => c06::replay(&v),
             "C04" => c04::replay(&v),
             "C03" => c03::replay(&v),
             "C17" => c17::replay(&v),
@@ -73,6 +76,7 @@ fn main() {
         "C08" => c01::run(c01::Mode::C08, &run),
         "C07" => c07::run(c07::Mode::C07, &run),
         "C05" => c05::run(&run),
+        "C06" => c06::run(&run),
         "C04" => c04::run(&run),
         "C03" => c03::run(&run),
         "C17" => c17::run(&run),
